@@ -502,5 +502,5 @@ func main() {
 	}
 	r.Assume("liveness restated as bounded progress: after the last mutation the simulator keeps answering and within 6 further completed poll rounds every well-formed token-bridge event of a main-chain block whose confirmation conditions hold must have been forwarded exactly once",
 		"all block timestamps are ~100 days old so that no wall-clock floor delays a delivery", "no API faults are injected while messages are pending (only token-metadata calls of attacker-named contracts misbehave); half of the scripts end with one failed current-count request when nothing is pending, i.e. a supervisor restart of the watcher")
-	r.Finish("evaluations", "scripts_distinct", "page limits {1,2,3,100}; batches of 1-5 events per block mixing well-formed token-bridge transfers/attestations (incl. target chain 65535, consistency 255, sequence near 2^64) with foreign-sender events, attestation-shaped events naming contracts whose metadata calls fail in seven ways, and twelve kinds of malformed events; 0/1/page/page+1 further events appended between the count answer and the first page answer and before the second page; distinct non-trivial = distinct script traces", 20)
+	r.Finish("evaluations", "scripts_distinct", "page limits {1,2,3,100}; batches of 1-5 events per block mixing well-formed token-bridge transfers/attestations (incl. target chain 65535, consistency 255, sequence near 2^64) with foreign-sender events, attestation-shaped events naming contracts whose metadata calls fail or answer oddly in eleven ways (HTTP error, two results, single methods failed, wrong value types, over-long values, a succeeded call with no or with two return values), and twelve kinds of malformed events; 0/1/page/page+1 further events appended between the count answer and the first page answer and before the second page; distinct non-trivial = distinct script traces", 20)
 }
